@@ -132,15 +132,24 @@ def _stmt(st, env):
         _block(st.body if _ev(st.test, env) else st.orelse, env)
         return
     if isinstance(st, ast.For):
-        for item in list(_ev(st.iter, env)):
+        it = iter(_ev(st.iter, env))     # live iteration: mutating a dict while iterating it fails as in Python
+        broke = False
+        while True:
+            try:
+                item = next(it)
+            except StopIteration:
+                break
+            except RuntimeError:
+                raise Raised("RuntimeError")
             _store(st.target, item, env)
             try:
                 _block(st.body, env)
             except _Break:
+                broke = True
                 break
             except _Continue:
                 continue
-        else:
+        if not broke:
             _block(st.orelse, env)
         return
     if isinstance(st, ast.Break):
@@ -211,9 +220,27 @@ def _store(t, val, env):
         raise AnalysisError("miniinterp: unsupported store target")
 
 
+def _args(call, env):
+    out = []
+    for a in call.args:
+        if isinstance(a, ast.Starred):
+            out.extend(list(_ev(a.value, env)))
+        else:
+            out.append(_ev(a, env))
+    return out
+
+
 def _ev(e, env):
     if isinstance(e, ast.Constant):
         return e.value
+    if isinstance(e, ast.Lambda):
+        prm = [a.arg for a in e.args.args]
+
+        def fn(*vals):
+            env2 = dict(env)
+            env2.update(zip(prm, vals))
+            return _ev(e.body, env2)
+        return fn
     if isinstance(e, ast.Name):
         if e.id in env:
             return env[e.id]
@@ -268,6 +295,13 @@ def _ev(e, env):
             return a + b
         if isinstance(e.op, ast.Sub):
             return a - b
+        if isinstance(e.op, ast.Mod) and isinstance(a, str):
+            try:
+                return a % b
+            except (TypeError, ValueError):
+                raise Raised("TypeError")
+        if isinstance(e.op, ast.Mult):
+            return a * b
         raise AnalysisError("miniinterp: unsupported operator")
     if isinstance(e, ast.Compare):
         left = _ev(e.left, env)
@@ -304,12 +338,24 @@ def _ev(e, env):
         d = A.call_name(e)
         hooks = env.get("__calls__", {})
         if d in hooks:
-            return hooks[d](*[_ev(a, env) for a in e.args])
-        if isinstance(e.func, ast.Attribute) and e.func.attr in ("update", "items", "keys", "values", "append", "extend"):
+            return hooks[d](*_args(e, env))
+        if isinstance(e.func, ast.Attribute) and isinstance(e.func.value, ast.Name) and env.get(e.func.value.id) == "__SELF__" \
+                and e.func.attr in env.get("__methods__", {}):
+            extra = {k: env[k] for k in ("__calls__", "__values__", "__isinstance__", "__methods__") if k in env}
+            return call_method(env["__methods__"][e.func.attr], env["__self__"], _args(e, env), extra)
+        if isinstance(e.func, ast.Attribute) and e.func.attr in ("upper", "lower", "strip", "join", "split", "startswith", "endswith"):
             base = _ev(e.func.value, env)
-            if isinstance(base, (dict, list)):
+            if isinstance(base, (str, bytes)):
+                return getattr(base, e.func.attr)(*_args(e, env))
+        if d == "sorted":
+            kw = {k.arg: _ev(k.value, env) for k in e.keywords}
+            return sorted(_ev(e.args[0], env), **kw)
+        if isinstance(e.func, ast.Attribute) and e.func.attr in ("update", "items", "keys", "values", "append", "extend",
+                                                                  "remove", "discard", "add", "sort", "copy"):
+            base = _ev(e.func.value, env)
+            if isinstance(base, (dict, list, set)):
                 r = getattr(base, e.func.attr)(*[_ev(a, env) for a in e.args])
-                return list(r) if e.func.attr in ("items", "keys", "values") else r
+                return r
         if d == "reversed":
             return list(reversed(list(_ev(e.args[0], env))))
         if d == "type" and len(e.args) == 1:
@@ -324,7 +370,8 @@ def _ev(e, env):
             if isinstance(v, ModelObj):
                 return nm in v.attrs
             raise AnalysisError("miniinterp: hasattr() of a non-model value")
-        if d in ("len", "max", "min", "list", "tuple", "str"):
-            return {"len": len, "max": max, "min": min, "list": list, "tuple": tuple, "str": str}[d](*[_ev(a, env) for a in e.args])
+        if d in ("len", "max", "min", "list", "tuple", "str", "set", "dict", "frozenset", "bool", "int"):
+            return {"len": len, "max": max, "min": min, "list": list, "tuple": tuple, "str": str, "set": set, "dict": dict,
+                    "frozenset": frozenset, "bool": bool, "int": int}[d](*[_ev(a, env) for a in e.args])
         raise AnalysisError("miniinterp: unsupported call %s" % A.src(e))
     raise AnalysisError("miniinterp: unsupported expression %s" % A.src(e))
